@@ -193,6 +193,7 @@ BodyItem(t) ==
     [] t.k = "use" -> <<BItem("use", t.n, t.a, <<>>, t.g)>>
     [] t.k = "pos" -> <<BItem("pos", t.n, <<>>, <<>>, t.g)>>
     [] t.k = "gap" -> <<BItem("gap", "", <<>>, <<>>, FALSE)>>
+    [] t.k = "inc" -> <<BItem("inc", t.n, <<>>, <<>>, FALSE)>>      \* a body that contains `include "f"
     [] OTHER -> <<>>       \* "cont" (line continuation) and "lcmt" (// comment) contribute no token
 RECURSIVE BodyItems(_)
 BodyItems(ts) == IF ts = <<>> THEN <<>> ELSE BodyItem(Head(ts)) \o BodyItems(Tail(ts))
@@ -265,7 +266,26 @@ OnLine(it, l) == it.ln <= l /\ l <= it.ln2
 LineMates(fr) ==
   LET it == fr.items[fr.pc] IN
   {j \in 1..Len(fr.items) : j # fr.pc /\ fr.items[j].k \notin {"nl", "cmt"} /\ OnLine(fr.items[j], it.ln)}
-IncludeLineErr(fr) == LineMates(fr) # {}
+\* Deviation IncludeLineUsesStartLine (known finding D10): the implementation compares the line on
+\* which a plain-text run or a directive STARTS with the line of the `include.  A run is a
+\* maximal sequence of plain tokens and line breaks, so a token that shares the include's line
+\* but belongs to a run that started on an earlier line is not seen; string literals are never
+\* looked at.
+RECURSIVE RunStart(_, _)
+RunStart(items, j) == IF j > 1 /\ items[j - 1].k \in {"tok", "nl"} THEN RunStart(items, j - 1) ELSE j
+FirstTokLine(items, j) ==
+  LET s == RunStart(items, j)
+      S == {k \in s..j : items[k].k = "tok"}
+  IN items[CHOOSE k \in S : \A k2 \in S : k <= k2].ln
+ImplSees(fr, j) ==
+  LET x == fr.items[j] IN
+  IF x.k = "str" THEN FALSE
+  ELSE IF x.k = "tok" THEN FirstTokLine(fr.items, j) = fr.items[fr.pc].ln
+  ELSE x.ln = fr.items[fr.pc].ln
+IncludeLineErr(fr) ==
+  IF "IncludeLineUsesStartLine" \in Dev THEN \E j \in LineMates(fr) : ImplSees(fr, j)
+  ELSE LineMates(fr) # {}
+IncludeLineDevFired(fr) == "IncludeLineUsesStartLine" \in Dev /\ LineMates(fr) # {} /\ ~(\E j \in LineMates(fr) : ImplSees(fr, j))
 
 -----------------------------------------------------------------------------
 (* Deviation DupTriviaAfterStrEsc (known finding D2, pinned by the golden files               *)
@@ -318,7 +338,9 @@ StepUse(st, fr, it) ==
   IF ~x.ok THEN Fail(st, x.err)
   ELSE IF x.none THEN Advance(Unglue(st))
   ELSE LET adv == Advance(st)
-           nf == [Frame("text", fr.file, x.items, FALSE, x.tag, fr.inc, fr.res + 1) EXCEPT !.gl = it.g, !.base = Len(st.out)]
+           \* deviation DepthNotThreaded (refutation only; defect D5, repaired): the include depth is
+           \* forgotten when a macro is expanded, the resolve depth when a file is included
+           nf == [Frame("text", fr.file, x.items, FALSE, x.tag, IF "DepthNotThreaded" \in Dev THEN 0 ELSE fr.inc, fr.res + 1) EXCEPT !.gl = it.g, !.base = Len(st.out)]
        IN [adv EXCEPT !.stack = Append(@, nf)]
 
 \* file named by a macro: the trimmed, unquoted expansion text
@@ -330,10 +352,8 @@ MacroFileName(st, name) ==
 
 \* Errors of the callee are wrapped in Include at the call site, hence FailDeeper for
 \* everything that is detected on behalf of the included file.
-StepInclude(st, env, fr, it) ==
-  IF fr.ign THEN Advance(st)      \* ignore_include: nothing is read, nothing is contributed
-  ELSE IF IncludeLineErr(fr) THEN Fail(st, <<"IncludeLine">>)
-  ELSE IF it.f = 2 /\ fr.res + 1 > Limit THEN Fail(st, <<"ExceedRecursiveLimit">>)
+StepInclude2(st, env, fr, it) ==
+  IF it.f = 2 /\ fr.res + 1 > Limit THEN Fail(st, <<"ExceedRecursiveLimit">>)
   ELSE IF it.f = 2 /\ DefIdx(st.defs, it.n) = 0 THEN Fail(st, <<"DefineNotFound", it.n>>)
   ELSE LET name == IF it.f = 2 THEN MacroFileName(st, it.n) ELSE it.n
            p    == Resolve(env, name)
@@ -342,8 +362,14 @@ StepInclude(st, env, fr, it) ==
           ELSE IF kind # "file" THEN FailDeeper(st, <<"ReadUtf8", p>>)
           ELSE IF fr.inc + 1 > Limit THEN FailDeeper(st, <<"ExceedRecursiveLimit">>)
           ELSE LET adv == Advance(st)
-                   nf  == Frame("file", p, FileItems(env, p), FALSE, NoTag, fr.inc + 1, fr.res)
+                   nf  == Frame("file", p, FileItems(env, p), FALSE, NoTag, fr.inc + 1, IF "DepthNotThreaded" \in Dev THEN 0 ELSE fr.res)
                IN [adv EXCEPT !.stack = Append(@, nf)]
+
+StepInclude(st, env, fr, it) ==
+  IF fr.ign THEN Advance(st)      \* ignore_include: nothing is read, nothing is contributed
+  ELSE IF IncludeLineDevFired(fr) THEN StepInclude2([st EXCEPT !.dev = @ \cup {"IncludeLineUsesStartLine"}], env, fr, it)
+  ELSE IF IncludeLineErr(fr) THEN Fail(st, <<"IncludeLine">>)
+  ELSE StepInclude2(st, env, fr, it)
 
 StepDefine(st, fr, it) ==
   LET e == [n |-> it.n, none |-> FALSE, f |-> it.f, a |-> it.a, b |-> it.b,
